@@ -180,6 +180,8 @@ class Tr:
                 return '(ECall "argmin_abs_diff" [%s; %s])' % (self.expr(d.left), self.expr(d.right))
             if dotted(f) in ('np.vstack', 'numpy.vstack') and len(e.args) == 1 and not e.keywords:
                 return '(ECall "np.vstack" [%s])' % self.expr(e.args[0])
+            if dotted(f) is not None and (dotted(f) + '()') in self.consts and not e.args and not e.keywords:
+                return '(EConst %s)' % const_value(self.consts[dotted(f) + '()'])          # a data-module function returning a literal
             if dotted(f) in ('np.power', 'numpy.power') and len(e.args) == 2 and not e.keywords:
                 return '(ECall "np.power" [%s; %s])' % (self.expr(e.args[0]), self.expr(e.args[1]))    # a float function: an oracle of the tie
             if dotted(f) == 'math.log' and len(e.args) == 2 and not e.keywords:
@@ -437,11 +439,18 @@ def literal_dicts(path):
             except Exception:
                 continue
             out[n.targets[0].id] = v
+        if isinstance(n, ast.FunctionDef) and not n.args.args:
+            body = [b for b in n.body if not (isinstance(b, ast.Expr) and isinstance(b.value, ast.Constant))]
+            if len(body) == 1 and isinstance(body[0], ast.Return) and body[0].value is not None:
+                try:
+                    out[n.name + '()'] = ast.literal_eval(body[0].value)      # def f(): return {literal}
+                except Exception:
+                    pass
     return out
 
 
 FDIV = {'g_LZW', 'g_LC', 'g_CWF'}
-QDIV = {'g_SCD', 'g_sigma', 'g_deltaForm', 'g_delta', 'g_kappa', 'g_Fplus', 'g_Fminus', 'g_FCR', 'g_NCPR'}
+QDIV = {'g_charge_at_pH', 'g_SCD', 'g_sigma', 'g_deltaForm', 'g_delta', 'g_kappa', 'g_Fplus', 'g_Fminus', 'g_FCR', 'g_NCPR'}
 
 FUNCS = [
     # (Coq name, file, class, function, prefixes under which the data module's names are visible there)
@@ -506,6 +515,7 @@ FUNCS = [
     ('g_fw_get_kappa_after_phosphorylation', 'localcider/sequenceParameters.py', 'SequenceParameters', 'get_kappa_after_phosphorylation', []),
     ('g_fw_get_sequence', 'localcider/sequenceParameters.py', 'SequenceParameters', 'get_sequence', []),
     ('g_verify_pH', 'localcider/sequenceParameters.py', 'SequenceParameters', '__verify_pH', []),
+    ('g_charge_at_pH', 'localcider/backend/sequence.py', 'Sequence', 'charge_at_pH', ['data.aminoacids.', 'aminoacids.']),
     ('g_SCD', 'localcider/backend/sequence.py', 'Sequence', 'sequence_charge_decoration', []),
     ('g_countPos', 'localcider/backend/sequence.py', 'Sequence', 'countPos', []),
     ('g_countNeg', 'localcider/backend/sequence.py', 'Sequence', 'countNeg', []),
